@@ -44,6 +44,64 @@ type namesCanon struct {
 
 // canonNames returns the leaves with the bit-set forms rewritten, and what could not be rewritten.
 func (e *Env) canonNames(l *facts.Level, leaves []*ir.Leaf) ([]*ir.Leaf, []string) {
+	if l.Names != nil && !l.NamesBits {
+		// the names map of an object that comes from a constructor is never nil (constructor-fresh: only the
+		// constructor sets the field, to a fresh map): a path that needs it to be nil is not a path of such an object
+		isNil := ir.Bin("==", ir.Field(ir.Param(0), l.Names), nilOf(l.Names.Type()))
+		// presence and value are the same thing in this map: the only value ever stored is true (duplicate-mark,
+		// write-ownership), so the ok of  v, ok := names[k]  is names[k]
+		namesKey := ir.Field(ir.Param(0), l.Names).Key()
+		present := func(t *ir.Term) *ir.Term {
+			if t.Op == ir.OExtract && t.N == 1 && len(t.Args) == 1 {
+				if lk := t.Args[0]; lk.Op == ir.OLookup && lk.Str == "ok" && len(lk.Args) == 2 && lk.Args[0].Key() == namesKey {
+					return &ir.Term{Op: ir.OLookup, Args: lk.Args, Typ: lk.Typ}
+				}
+			}
+			return nil
+		}
+		var kept []*ir.Leaf
+		for _, lf := range leaves {
+			if hasGuard(lf, isNil) {
+				continue
+			}
+			n := *lf
+			n.Guards = nil
+			feasible := true
+			at := make([]int, len(lf.Guards)+1) // at[k]: guards kept among the first k
+			for k, g := range lf.Guards {
+				ng := ir.Replace(g, present)
+				neg := ir.NotCond(ng).Key()
+				dup := false
+				for _, og := range n.Guards {
+					if og.Key() == neg {
+						feasible = false
+					}
+					if og.Key() == ng.Key() {
+						dup = true
+					}
+				}
+				if !dup {
+					n.Guards = append(n.Guards, ng)
+				}
+				at[k+1] = len(n.Guards)
+			}
+			if !feasible {
+				continue
+			}
+			n.Effects = append([]ir.Effect{}, lf.Effects...)
+			for i := range n.Effects {
+				if ng := n.Effects[i].NG; ng >= 0 && ng < len(at) {
+					n.Effects[i].NG = at[ng]
+				}
+			}
+			n.Ret = make([]*ir.Term, len(lf.Ret))
+			for i, r := range lf.Ret {
+				n.Ret[i] = ir.Replace(r, present)
+			}
+			kept = append(kept, &n)
+		}
+		leaves = kept
+	}
 	if l.Names == nil || !l.NamesBits {
 		return leaves, nil
 	}
